@@ -193,6 +193,15 @@ def gen_history(rng, maxsteps, with_collision=False):
                 ops.append([5]); ops.append([6]); nsn += 2; coll = 1
             else:
                 ops.append([0, rng.randint(1, 2 ** 31), rng.randint(0, 5)]); nsn += 1
+        elif r < 0.43 and nsn >= 1:
+            # forget, prune that only MARKS (keep_delete 1h), the forgotten snapshot comes back, prune: must recover
+            mask = rng.randint(1, 2 ** nsn - 1)
+            k = bin(mask).count("1")
+            ops.append([1, mask])
+            p, o = gen_prune(rng, force=dict(instant=0, kd=3600)); p[12] = 0; ops.append(p)
+            ops.append([4, rng.randint(0, 100)])
+            p, o = gen_prune(rng, force=dict(instant=0, kd=3600)); ops.append(p)
+            nsn += 1 - k; nforgot += k - 1; safe_forgot += k - 1
         elif r < 0.55:
             mask = rng.randint(0, 2 ** nsn - 1)
             k = bin(mask).count("1")
